@@ -429,6 +429,77 @@ def evaluate_strings(ctx, cases):
     return failures, {"evaluations": evals, "model_rows": len(model_rows), "model_mismatches": mm}
 
 
+def float_cases(ctx):
+    """int(float) and float(int) around the boundaries where f64 and integers part ways."""
+    import struct
+    rng = ctx.rng
+    fl = set()
+    for e in (0, 1, 30, 31, 32, 52, 53, 54, 62, 63, 64, 65, 100, 127, 1000, 1023):
+        for s_ in (1.0, -1.0):
+            base = s_ * 2.0 ** e
+            for v in (base, base + 1, base - 1, base * (1 + 2 ** -52), base * (1 - 2 ** -53), base + 0.5, base - 0.5):
+                fl.add(v)
+    fl.update([0.0, -0.0, 0.5, -0.5, 2.5, -2.5, 1e300, -1e300, 1.7976931348623157e308, 5e-324, float("inf"), float("-inf"), float("nan"),
+               2147483647.0, 2147483648.0, -2147483648.0, -2147483649.0, 9223372036854775807.0, 9223372036854775808.0, -9223372036854775808.0,
+               18446744073709551615.0, 18446744073709551616.0, 9007199254740993.0, 4294967295.5])
+    for _ in range(ctx.n(300, 3000)):
+        bits = rng.getrandbits(64)
+        fl.add(struct.unpack(">d", struct.pack(">Q", bits))[0])
+        fl.add(float(rand_int(rng)) if abs(rand_int(rng)) < 2 ** 1000 else 1.0)
+    cases = []
+    for f in fl:
+        cases.append({"op": "f2i", "bits": "%016x" % struct.unpack(">Q", struct.pack(">d", f))[0]})
+    ints = set(boundary_values(2))
+    for e in (53, 54, 63, 64, 100, 200, 1023):
+        for d in (-3, -2, -1, 0, 1, 2, 3, 2 ** (e - 53), 2 ** (e - 53) + 1, 2 ** (e - 53) - 1, 3 * 2 ** (e - 54)):
+            for s_ in (1, -1):
+                ints.add(s_ * (2 ** e + d))
+    for _ in range(ctx.n(300, 3000)):
+        ints.add(rand_int(rng))
+    for a in ints:
+        if abs(a) < 2 ** 1023:
+            cases.append({"op": "i2f", "a": str(a)})
+    return cases
+
+
+def evaluate_floats(ctx, cases):
+    import math
+    import struct
+    rc, log, res = sv.run_harness_sharded(ctx, "ints", cases, timeout=900)
+    failures, evals, nontriv = [], 0, 0
+    for c, r in zip(cases, res):
+        if r is None or "panic" in (r or {}):
+            failures.append({"key": "%s:panic" % c["op"], "what": "no result / panic for %s: %s" % (c, r), "replay": {"case": c, "impl": r}})
+            continue
+        if c["op"] == "f2i":
+            f = struct.unpack(">d", struct.pack(">Q", int(c["bits"], 16)))[0]
+            want = ("err",) if (math.isnan(f) or math.isinf(f)) else ("int", int(f))     # truncation toward zero, exact
+            for mode in ("run", "fold"):
+                if r.get(mode) is None:
+                    continue
+                evals += 1
+                o = impl_out(r[mode])
+                ok = (o[0] == "err") if want[0] == "err" else (o[:2] == want and o[2] == (not small(want[1])))
+                if not ok:
+                    failures.append({"key": "int-of-float:%s" % ("wrong-value" if o[0] == "int" else "wrong-outcome"),
+                                     "what": "int(%r) (%s) -> implementation %s, exact value %s" % (f, mode, o, want),
+                                     "replay": {"case": c, "mode": mode, "impl": r[mode], "spec": want}})
+            if want[0] == "int" and not small(want[1]):
+                nontriv += 1
+        else:
+            a = int(c["a"])
+            want = "%016x" % struct.unpack(">Q", struct.pack(">d", float(a)))[0]       # correctly rounded (nearest, ties to even)
+            for mode in ("run", "fold"):
+                evals += 1
+                got = r[mode].get("bits")
+                if got != want:
+                    failures.append({"key": "float-of-int:wrong-value", "what": "float(%d) (%s) -> bits %s, correctly rounded %s" % (a, mode, r[mode], want),
+                                     "replay": {"case": c, "mode": mode, "impl": r[mode], "spec": want}})
+            if abs(a) > 2 ** 53:
+                nontriv += 1
+    return failures, {"evaluations": evals, "nontrivial": nontriv}
+
+
 def correspond(ctx):
     cases = gen_cases(ctx)
     ctx.log("generated %d operator cases" % len(cases))
@@ -436,14 +507,19 @@ def correspond(ctx):
     scases = string_cases(ctx)
     f2, st2 = evaluate_strings(ctx, scases)
     failures += f2
+    fcases = float_cases(ctx)
+    f3, st3 = evaluate_floats(ctx, fcases)
+    failures += f3
+    ctx.log("int<->float conversion cases=%d evals=%d failures=%d" % (len(fcases), st3["evaluations"], len(f3)))
     ctx.log("operator evals=%d coq_cases=%d model_mismatches=%d; string/host evals=%d model_rows=%d failures=%d"
             % (st["evaluations"], st["coq_cases"], st["model_mismatches"], st2["evaluations"], st2["model_rows"], len(failures)))
     dist = {}
     for c in cases:
         dist[c["op"]] = dist.get(c["op"], 0) + 1
     cov = {
-        "evaluations": st["evaluations"] + st2["evaluations"],
-        "distinct_nontrivial": len(st["nontrivial"]),
+        "evaluations": st["evaluations"] + st2["evaluations"] + st3["evaluations"],
+        "distinct_nontrivial": len(st["nontrivial"]) + st3["nontrivial"],
+        "int_float_conversion_cases": len(fcases),
         "rule": "boundary grid around 0, +-2^31, +-2^32, +-2^53, +-2^63, +-2^64 (exhaustive pairs per operator) + random operands up to "
                 "256 bits; each evaluated folded, at run time and by augmented assignment; non-trivial = an operand or the exact result "
                 "lies outside the i32 range, or the specification is an error; distinct by (op, a, b)",
@@ -466,6 +542,8 @@ def search(ctx, broken):
     try:
         failures, st = evaluate(ctx, gen_cases(ctx))
         f2, _ = evaluate_strings(ctx, string_cases(ctx))
+        f3, _ = evaluate_floats(ctx, float_cases(ctx))
+        f2 = f2 + f3
     finally:
         ctx.tier = old
     return {"failures": failures + f2, "coverage": {"evaluations": st["evaluations"]}}
@@ -475,7 +553,9 @@ def replay(ctx, rep):
     c = rep.get("replay", {}).get("case")
     if not c:
         return {"coverage": {}, "failures": []}
-    if c["op"] in BIN or c["op"] in UN:
+    if c["op"] in ("f2i", "i2f"):
+        failures, st = evaluate_floats(ctx, [c])
+    elif c["op"] in BIN or c["op"] in UN:
         failures, st = evaluate(ctx, [c])
     else:
         failures, st = evaluate_strings(ctx, [c])
